@@ -661,6 +661,7 @@ func c08Pass(c *core.Ctx, incEdited bool) {
 				{"header-kind=payee|note", "desc-shape=🍕 pizza"}, {"header-kind=payee|note", "pipe-blanks=0/0"}, {"line-end=CRLF", "account-shape=expenses:🍕"},
 				{"status=!", "code=(a b)"}, {"header-gap=2", "status=*"}, {"commodity=rub-right-nogap", "sign=negative"}, {"entry-before=commodity-quoted", "commodity=quoted-right"},
 				{"blank-lines=0", "entry-between=comment"}, {"blank-lines=0", "comment-line-after-posting=last, tag"},
+				{"header-kind=payee|note", "code=(123)"}, {"header-kind=payee|note", "code=(a b)"}, {"header-kind=payee|note", "date2=present"}, {"header-kind=payee|note", "date2=slash-unpadded"}, {"header-kind=payee|note", "header-gap=2"}, {"header-kind=payee|note", "status=*"},
 			}...)
 		}
 		for _, names := range combos {
@@ -669,9 +670,9 @@ func c08Pass(c *core.Ctx, incEdited bool) {
 			for _, n := range names {
 				d, found := byName[n]
 				if !found {
-					c.Note("combination not in catalogue: %v", names)
-					ok = false
-					break
+					// a listed combination that names no deviation is a mistake of the harness
+					c.Res.InfraError = fmt.Sprintf("listed combination not in the deviation catalogue: %v", names)
+					return
 				}
 				applied = append(applied, d)
 			}
